@@ -405,7 +405,7 @@ func checkC20Steps(p *Prog, r *Report, ru *Rule) {
 			return
 		}
 		for _, t := range tests {
-			from := Loc{t.If.Block().Succs[1-t.NilSucc], -1}
+			from := edgeLoc(t.If.Block(), 1-t.NilSucc)
 			/* (a) reported before leaving. */
 			silent := reachQ{From: from, Block: func(i ssa.Instruction) bool { return reportsErrSync(i, errV, known, p) }, Target: func(i ssa.Instruction) bool {
 				if isReturn(i) {
@@ -553,7 +553,7 @@ func checkC20Swallow(p *Prog, r *Report, ru *Rule) {
 				return
 			}
 			for _, t := range nilTestsOf(fn, errV) {
-				from := Loc{t.If.Block().Succs[1-t.NilSucc], -1}
+				from := edgeLoc(t.If.Block(), 1-t.NilSucc)
 				hit := reachQ{From: from, Block: func(j ssa.Instruction) bool {
 					if reportsErr(j, errV, known, p) {
 						return true
@@ -705,7 +705,7 @@ func checkC20Restore(p *Prog, r *Report, ru *Rule) {
 	default:
 		okk := true
 		for _, t := range nilTestsOf(rm, errV) {
-			from := Loc{t.If.Block().Succs[t.NilSucc], -1}
+			from := edgeLoc(t.If.Block(), t.NilSucc)
 			miss := reachQ{From: from, Block: func(i ssa.Instruction) bool { return i == ssa.Instruction(def) }, Target: func(i ssa.Instruction) bool {
 				if isReturn(i) {
 					return true
@@ -965,8 +965,8 @@ func flagGuardedCleanup(fn *ssa.Function, cleanup ssa.Value) bool {
 				falseSucc = 0
 			}
 			/* Cleanup on every path from the false edge; none from the true edge. */
-			missing := reachQ{From: Loc{b.Succs[falseSucc], -1}, Target: isReturn, Block: isCleanupCall}.run()
-			extra := reachQ{From: Loc{b.Succs[1-falseSucc], -1}, Target: isCleanupCall}.run()
+			missing := reachQ{From: edgeLoc(b, falseSucc), Target: isReturn, Block: isCleanupCall}.run()
+			extra := reachQ{From: edgeLoc(b, 1-falseSucc), Target: isCleanupCall}.run()
 			if nil == missing && nil == extra {
 				flag = cell
 			}
